@@ -14,8 +14,9 @@ PID = "C13"
 LEVEL = "proof"
 HB, SYNC, LOOP = "SyneTune/Drivers/Hb.lean", "SyneTune/Drivers/Sync.lean", "SyneTune/Drivers/Loop.lean"
 DRIVER = HB
-COMPARE = {HB: hb.compare, SYNC: sync.compare}
-LEAN_TARGETS = ["SyneTune.Props.C13Hb", "SyneTune.Props.C13Sync", "SyneTune.Props.C14", "SyneTune.Props.C06"]
+from streams import loop as _loop
+COMPARE = {HB: hb.compare, SYNC: sync.compare, LOOP: _loop.compare}
+LEAN_TARGETS = ["SyneTune.Props.C13Hb", "SyneTune.Props.C13Sync", "SyneTune.Props.C13Loop", "SyneTune.Props.C14", "SyneTune.Props.C06", "SyneTune.Props.C04K"]
 THEOREMS = [
     "SyneTune.C13Hb.error_contained",
     "SyneTune.C13Hb.failed_running_trial_not_resumed",
@@ -25,6 +26,12 @@ THEOREMS = [
     "SyneTune.C13Sync.occupied_slots_stable",
     "SyneTune.C13Sync.no_resume_failed_partial",
     "SyneTune.C13Sync.no_resume_failed_counterexample",
+    "SyneTune.C13Loop.notified_failed",
+    "SyneTune.C13Loop.notified_external_stop",
+    "SyneTune.C13Loop.notified_once",
+    "SyneTune.C13Loop.continues",
+    "SyneTune.C13Loop.abort_names_failed",
+    "SyneTune.C04K.resume_only_not_running",
     "SyneTune.C14.failed_spec",
     "SyneTune.C14.cleanup_spec",
     "SyneTune.C06.no_repeat_failed",
@@ -96,10 +103,7 @@ def gen_cases(rng, tier):
 
 
 def _loop_cases(rng, tier):
-    try:
-        from props import c13loop  # provided once the loop stream is integrated
-    except Exception:
-        return []
+    from props import c13loop
     return c13loop.gen_cases(rng, tier)
 
 
